@@ -177,7 +177,10 @@ def _gen_once(rng, max_heavy, p_arom, p_ring, charged, hetero, triple, lowest_va
         # pyrrole / imidazole rings with a free N-H may also be WRITTEN in lower case (c1cc[nH]c1): the library accepts that
         # spelling and turns it into the same Kekule structure (the ground truth keeps single and double bonds)
         x = ring[0]
-        if g.nodes[x]['element'] == 'N' and g.nodes[x]['hcount'] == 1 and rng.random() < p_lower5:
+        # (a lower-case ring bonded directly to another lower-case / aromatic atom is left in Kekule form: the library
+        # kekulises all lower-case atoms together and may move a double bond onto the explicitly single bond between them)
+        touching = any((g.nodes[y].get('lower') or g.nodes[y].get('aromatic')) for n in ring for y in g[n] if y not in ring)
+        if g.nodes[x]['element'] == 'N' and g.nodes[x]['hcount'] == 1 and not touching and rng.random() < p_lower5:
             for n in ring:
                 g.nodes[n]['lower'] = True
             for a, b in zip(ring, ring[1:] + ring[:1]):
